@@ -167,8 +167,61 @@ def ints(out):
     return [int(x) for x in re.findall(r"-?\d+", out)]
 
 
+def extra_scenarios(ctx):
+    """(a) several stores whose paths differ only in the extension, written at overlapping times, each return their own
+    value; (b) a store written over a pre-existing file of another kind / non-empty content returns what was written."""
+    import pickle
+    import shutil
+    import uberjob.stores as st
+    d = tempfile.mkdtemp(prefix="ujc12x_")
+    try:
+        # (a) the write of one store happens in the middle of the serialisation of its sibling
+        for pk in ("str", "pathlib"):
+            mk = (lambda n: os.path.join(d, n)) if pk == "str" else (lambda n: __import__("pathlib").Path(d) / n)
+            txt = st.TextFileStore(mk("result.txt"))
+            js = st.JsonFileStore(mk("result.json"))
+            pkl = st.PickleFileStore(mk("result.pkl"))
+
+            class Nested:
+                def __reduce__(self):
+                    txt.write("text value")          # a sibling store is written while this pickle is being written
+                    js.write({"k": [1, 2]})
+                    return (str, ("pickled",))
+            ctx.case(("c12-siblings", pk))
+            try:
+                pkl.write([1, Nested(), 2])
+                got = (pkl.read(), txt.read(), js.read())
+            except BaseException as e:  # noqa
+                got = ("error", type(e).__name__, str(e)[:80])
+            want = ([1, "pickled", 2], "text value", {"k": [1, 2]})
+            if got != want:
+                ctx.fail("siblings:interference", "stores result.pkl / result.txt / result.json written at overlapping times read back %r, expected %r" % (got, want),
+                         {"path_kind": pk, "listing": sorted(os.listdir(d))})
+            for f in os.listdir(d):
+                os.remove(os.path.join(d, f))
+        # (b) written over existing content
+        for name, store, value in (("touch", st.TouchFileStore, None), ("text", st.TextFileStore, "new"), ("binary", st.BinaryFileStore, b"new"),
+                                   ("json", st.JsonFileStore, {"a": 1}), ("pickle", st.PickleFileStore, (1, 2))):
+            p = os.path.join(d, "x_" + name)
+            with open(p, "wb") as f:
+                f.write(b"previous content of another kind, longer than the new value " * 3)
+            s_ = store(p)
+            ctx.case(("c12-overwrite", name))
+            try:
+                s_.write(value)
+                got = s_.read()
+                ok = got == value and type(got) is type(value)
+            except BaseException as e:  # noqa
+                got, ok = "%s: %s" % (type(e).__name__, e), False
+            if not ok:
+                ctx.fail("overwrite:%s" % name, "%s written over an existing non-empty file reads back %r instead of %r" % (store.__name__, got, value), {"store": name})
+    finally:
+        shutil.rmtree(d, ignore_errors=True)
+
+
 def run(ctx):
     core.use_repo()
+    extra_scenarios(ctx)
     import uberjob.stores as st
     from uberjob.stores._mounted_store import MountedStore
     from uberjob.stores._file_store import get_modified_time, staged_write
